@@ -13,7 +13,7 @@ META = dict(
           'type over the base types (quick 12, thorough 27: every integer type, bool, float, double, unscoped/scoped enum, object pointers, pointer to pointer, function '
           'pointer, fixed arrays incl. 2-D and array of pointers, registered struct); transitions = forms: unary/binary/compound/increment operators with plain, nullptr, '
           'tainted, tainted_volatile, boolean-hint, int-hint and same-type right operands, plain-on-the-left forms, indexing, dereference, address-of, RLBox casts, opaque conversion, and '
-          '43 conversion contexts (copy/direct/list initialisation of plain variables, assignment, argument passing, return, if/while/for/do/switch/?: conditions, '
+          '50 conversion contexts (the private raw accessors with and without a sandbox argument, copy/direct/list initialisation of plain variables, assignment, argument passing, return, if/while/for/do/switch/?: conditions, '
           'subscript with a wrapped index, pointer arithmetic with a wrapped offset, static/functional/C-style/reinterpret casts), and the library routines over '
           'sandbox memory (memcmp with tainted / tainted_volatile / raw operands must yield exactly tainted_int_hint; memcpy, memset, grant-access copies, invocation results stay wrapped). One probe program per (state, form), '
           'compiled against the real headers with compile checks ON; an accepted probe is classified by static_assert traits. The state set is closed under the result '
@@ -150,6 +150,14 @@ def forms(tier):
          ('to_string', 'arith', 'auto s_ = std::to_string(x); (void)s_;'),
          ('compare-to-bool', 'arith', 'bool v = (x == y); (void)v;'),
          ('compare-int-to-bool', 'arith', 'bool v = (x == pi); (void)v;')]
+    # the raw accessors the wrappers keep private (friends only): with or without a sandbox argument, value or reference
+    S += [('accessor:get_raw_value()', 'accessor', 'auto v = x.get_raw_value(); (void)v;'),
+          ('accessor:get_raw_sandbox_value()', 'accessor', 'auto v = x.get_raw_sandbox_value(); (void)v;'),
+          ('accessor:get_raw_sandbox_value(sb)', 'accessor', 'auto v = x.get_raw_sandbox_value(sb); (void)v;'),
+          ('accessor:get_raw_value_ref()', 'accessor', 'auto& v = x.get_raw_value_ref(); (void)v;'),
+          ('accessor:get_sandbox_value_ref()', 'accessor', 'auto& v = x.get_sandbox_value_ref(); (void)v;'),
+          ('accessor:get_raw_value(sb)', 'accessor', 'auto v = x.get_raw_value(sb); (void)v;'),
+          ('accessor:data', 'accessor', 'auto& v = x.data; (void)v;')]
     for sid, cls, code in S:
         F.append(('sink:' + sid, 'SINK:' + cls, code))
     return F
